@@ -230,6 +230,70 @@ def one(case, pl):
             return out
         res["rebuilt"]["funcs"] = guarded(funcs)
 
+    # from_matrices on hand-made dense arrays that are NOT in canonical form (rows under unavailable actions,
+    # rewards on impossible transitions): the resulting MDP's views against its own functions
+    raw = case.get("raw")
+    if raw:
+        import numpy as np
+
+        def fa(x):
+            return np.array([[[fl(v) for v in r] for r in mm] for mm in x], dtype=float).reshape(
+                (len(raw["sl"]), len(raw["al"]), len(raw["sl"])))
+
+        def build_raw():
+            conv = {"list": list, "tuple": tuple}.get(case.get("fm_lists"), list)
+            return TabularMarkovDecisionProcess.from_matrices(
+                state_list=conv(S[i] for i in raw["sl"]), action_list=conv(A[j] for j in raw["al"]),
+                initial_state_vec=np.array([fl(v) for v in raw["s0"]], dtype=float),
+                transition_matrix=fa(raw["tf"]),
+                action_matrix=np.array([[fl(v) for v in r] for r in raw["am"]], dtype=float).reshape((len(raw["sl"]), len(raw["al"]))),
+                reward_matrix=fa(raw["rf"]),
+                absorbing_state_vec=np.array(raw["abs"], dtype=bool),
+                discount_rate=gamma)
+
+        def funcs_of(mm):
+            out = {}
+            for s in mm.state_list:
+                out[str(sid[s])] = {"actions": [aid[a] for a in mm.actions(s)], "absorbing": bool(mm.is_absorbing(s)),
+                                    "next": {str(aid[a]): sorted([sid[ns], fj(p)] for ns, p in mm.next_state_dist(s, a).items())
+                                             for a in mm.actions(s)},
+                                    "reward": {"%d,%d" % (aid[a], sid[ns]): fj(mm.reward(s, a, ns))
+                                               for a in mm.actions(s) for ns, p in mm.next_state_dist(s, a).items()}}
+            out["init"] = sorted([sid[s], fj(p)] for s, p in mm.initial_state_dist().items())
+            return out
+        mr = guarded(build_raw)
+        if isinstance(mr, dict):
+            res["raw"] = mr
+        else:
+            # functions first (before any cached view is touched), then the views, then the functions again
+            rr = {"funcs": guarded(lambda: funcs_of(mr))}
+            rr.update(view(mr, sid, aid))
+            rr["funcs_after"] = guarded(lambda: funcs_of(mr))
+            rr["reach"] = guarded(lambda: sorted(sid[s] for s in mr.reachable_states()))
+            res["raw"] = rr
+            def raw_quick():
+                return QuickTabularMDP(next_state_dist=mr.next_state_dist, reward=mr.reward, actions=mr.actions,
+                                       initial_state_dist=mr.initial_state_dist, is_absorbing=mr.is_absorbing,
+                                       discount_rate=mr.discount_rate)
+            mrq = guarded(raw_quick)
+            res["raw_quick"] = mrq if isinstance(mrq, dict) else view(mrq, sid, aid, tables=False)
+            if not isinstance(mrq, dict):
+                res["raw_quick"]["reach"] = guarded(lambda: sorted(sid[s] for s in mrq.reachable_states()))
+            # a second round trip from the views it serves, and planning on both
+            def again():
+                return TabularMarkovDecisionProcess.from_matrices(
+                    state_list=mr.state_list, action_list=mr.action_list, initial_state_vec=mr.initial_state_vec,
+                    transition_matrix=mr.transition_matrix, action_matrix=mr.action_matrix, reward_matrix=mr.reward_matrix,
+                    absorbing_state_vec=mr.absorbing_state_vec, discount_rate=mr.discount_rate)
+            mrr = guarded(again)
+            res["raw_rebuilt"] = mrr if isinstance(mrr, dict) else view(mrr, sid, aid, tables=False)
+            if case.get("vi"):
+                res["raw_plan"] = {"raw": guarded(lambda: plan(mr, sid, aid, case["vi"]))}
+                if not isinstance(mrr, dict):
+                    res["raw_plan"]["rebuilt"] = guarded(lambda: plan(mrr, sid, aid, case["vi"]))
+                if not isinstance(mrq, dict):
+                    res["raw_plan"]["quick"] = guarded(lambda: plan(mrq, sid, aid, case["vi"]))
+
     # quick constructors wrapping the five functions (fresh un-instrumented source object)
     src = TableMDP(dict(tb, log=[]))
     def quick_tab():
